@@ -18,6 +18,7 @@ type CaseOpts struct {
 	Watcher string // "", plain, ex, upd, exupd
 	// OraUniverse: string values over which oracle tables of the used built-ins are tabulated
 	OraUniverse []string
+	MatchFns    []string       // matching functions that may be registered: tabulated over OraUniverse
 	EvalTab     map[string]*Ex // rule text -> AST, for eval()
 	Customs     map[string]*Ex // custom matcher id -> AST (printed against r/p)
 	CustomFns   map[string]govaluate.ExpressionFunction
@@ -75,7 +76,19 @@ func StartCase(c *Ctx, ms *MSpec, o CaseOpts) *Sess {
 	for _, l := range ms.Header(m) {
 		c.W.Op(l, "#")
 	}
-	s := &Sess{Customs: map[string]string{}}
+	s := &Sess{Customs: map[string]string{}, MS: ms}
+	for _, name := range o.MatchFns {
+		fn := matchFns[name]
+		for _, a := range o.OraUniverse {
+			for _, b := range o.OraUniverse {
+				res := "b:0"
+				if fn(a, b) {
+					res = "b:1"
+				}
+				c.W.Op("ora "+name+" s:"+proto.Enc(a)+" s:"+proto.Enc(b)+" = "+res, "#")
+			}
+		}
+	}
 	for text, ast := range o.EvalTab {
 		c.W.Op("evaltab "+proto.Enc(text)+" "+ast.Prefix(), "#")
 	}
@@ -158,7 +171,7 @@ func (s *Sess) Do(c *Ctx, o EOp) string {
 
 // StartCaseQuiet builds a session without recording anything (implementation-only checks).
 func StartCaseQuiet(ms *MSpec, o CaseOpts) *Sess {
-	s := &Sess{Customs: map[string]string{}}
+	s := &Sess{Customs: map[string]string{}, MS: ms}
 	s.A = mem.New()
 	e, err := casbin.NewEnforcer(ms.Build(), s.A)
 	if err != nil {
